@@ -33,7 +33,7 @@ import operator
 import numpy as np  # noqa: F401
 import pandas as pd  # noqa: F401
 
-from . import harness as H, snap as S
+from . import harness as H, model as M, snap as S
 from .gen import build as B, spec as G
 
 DEPTHS = ("SCHEMA_ONLY", "DATA_ONLY", "SCHEMA_AND_DATA")
@@ -91,6 +91,15 @@ def gen_case(rng, neutral):
         muts = []
         if rng.random() < 0.6:
             muts = G.mutate(rng, spec, table)
+        if spec["kind"] == "frame" and rng.random() < 0.3:
+            # targeted: a declared regex column without any matching label
+            for fs in spec["columns"]:
+                if fs["regex"]:
+                    keep = [c for c in table["columns"]
+                            if not M.match_regex(fs["name"], c["name"])]
+                    if len(keep) != len(table["columns"]) and keep:
+                        table["columns"] = keep
+                        muts.append(("regex_absent", fs["name"]))
         if has_null(table):
             continue
         return spec, table, muts
